@@ -68,6 +68,7 @@ def _translators():
         ('tables', 't_tables', 'generate', 'BC/Gen/Tables.lean'),
         ('sites', 't_sites', 'generate', 'BC/Gen/Sites.lean'),
         ('rw', 't_rw', 'generate', 'BC/Gen/RW.lean'),
+        ('funcs', 't_funcs', 'generate', 'BC/Gen/Funcs.lean'),
     ]:
         try:
             m = __import__(modname)
@@ -140,13 +141,15 @@ def failing_decls(build_out: str):
     return bad
 
 
-def audit(prop_id, theorems):
-    """Runs `#print axioms` for the property theorems. Returns {theorem: (ok, axioms|error)}."""
+def audit(prop_id, theorems, module=None):
+    """Runs `#print axioms` for the property theorems. Returns {theorem: (ok, axioms|error)}.
+    `module`: the Lean module to import when it is not BC.Props.<id> (the source-tie modules BC.Props.<id>Src, whose theorems
+    live in the same namespace BC.Props.<id>)."""
     ns = f'BC.Props.{prop_id}'
-    body = f'import {ns}\n' + ''.join(f'#print axioms {ns}.{t}\n' for t in theorems)
+    body = f'import {module or ns}\n' + ''.join(f'#print axioms {ns}.{t}\n' for t in theorems)
     adir = LEAN / '.audit'
     adir.mkdir(exist_ok=True)
-    f = adir / f'{prop_id}.lean'
+    f = adir / (f'{prop_id}.lean' if module is None else module.split('.')[-1] + '.lean')
     f.write_text(body)
     rc, out = run(['lake', 'env', 'lean', str(f)], cwd=LEAN, timeout=600)
     res = {}
@@ -354,21 +357,26 @@ class Check:
         return time.time() - self.t0
 
 
-def standard_build(chk: Check, gens, targets, theorems, prop_files):
-    """regenerate -> build -> audit -> token grep; records obligations on chk. Returns Driver or None."""
+def standard_build(chk: Check, gens, targets, theorems, prop_files, src=None):
+    """regenerate -> build -> audit -> token grep; records obligations on chk. Returns Driver or None.
+    `src` = {'module', 'file', 'theorems'}: the source-tie module of the property (theorems `Src.f = Model.f` over the function
+    bodies regenerated by translate/t_funcs.py); built and audited on its own, so that a tie that no longer checks is
+    reported as that tie and does not hide the state of the other theorems."""
     drv = None
     with BuildLock():
+        if src and 'funcs' not in gens:
+            gens = list(gens) + ['funcs']
         rg = regen(gens)
         for g, err in rg.items():
             chk.oblige(f'translate:{g}', 'translation', err is None, err or 'regenerated from ' + str(REPO))
-        ok, out = lake_build(list(targets) + ['bcdrv'])
+        ok, out = lake_build(list(targets) + ([src['module']] if src else []) + ['bcdrv'])
         bad = failing_decls(out) if not ok else {}
         if not ok and not bad:
             # build failed without a located error: everything downstream is unknown
             chk.oblige('lake-build', 'build', False, out[-1500:])
         # driver: is the executable there and fresh?
-        drv_ok = ok or not any(f.startswith('Driver/') or f.startswith('BC/Model') or f.startswith('BC/Gen') or f == 'BC/Num.lean'
-                               for f in bad)
+        drv_ok = ok or not any(f.startswith('Driver/') or f.startswith('BC/Model') or (f.startswith('BC/Gen') and f != 'BC/Gen/Funcs.lean')
+                               or f == 'BC/Num.lean' for f in bad)
         if not ok and drv_ok:
             ok2, out2 = lake_build(['bcdrv'])
             drv_ok = ok2
@@ -381,10 +389,32 @@ def standard_build(chk: Check, gens, targets, theorems, prop_files):
         bad_here = set()
         for f in prop_files:
             bad_here |= bad.get(f, set())
-        other_bad = {f: v for f, v in bad.items() if f not in prop_files}
+        src_file = src['file'] if src else None
+        # the regenerated function bodies are imported by the source-tie modules only
+        other_bad = {f: v for f, v in bad.items() if f not in prop_files and f != src_file and f != 'BC/Gen/Funcs.lean'}
         if other_bad:
             chk.oblige('lean-build-deps', 'build', False, json.dumps({k: sorted(map(str, v)) for k, v in other_bad.items()}))
-        aud = audit(chk.id, theorems) if ok else {}
+        main_ok = ok or (bool(bad) and not other_bad and not bad_here)     # only the source-tie module failed
+        aud = audit(chk.id, theorems) if main_ok else {}
+        if src:
+            sbad = bad.get(src_file, set())
+            if 'BC/Gen/Funcs.lean' in bad:
+                chk.oblige('translate:funcs-typechecks', 'translation', False,
+                           'BC/Gen/Funcs.lean does not compile: ' + ', '.join(sorted(map(str, bad['BC/Gen/Funcs.lean']))))
+                sbad = sbad | {'BC/Gen/Funcs.lean'}
+            saud = audit(chk.id, src['theorems'], src['module']) if (ok or (bool(bad) and not other_bad and not sbad)) else {}
+            for t in src['theorems']:
+                if t in sbad:
+                    chk.oblige(f'theorem:{t}', 'source-tie', False,
+                               'the function body regenerated from the source no longer equals the model function (tie does not compile)')
+                elif t in saud:
+                    a_ok, ax = saud[t]
+                    chk.oblige(f'theorem:{t}', 'source-tie', a_ok, f'axioms={ax}')
+                else:
+                    chk.oblige(f'theorem:{t}', 'source-tie', False, 'not checked: ' + (', '.join(sorted(map(str, sbad))) or 'a dependency failed to build'))
+            extra = sbad - set(src['theorems'])
+            if extra:
+                chk.oblige('source-tie-file', 'source-tie', False, f'declarations failing in {src_file}: {sorted(map(str, extra))}')
         for t in theorems:
             if t in bad_here:
                 chk.oblige(f'theorem:{t}', 'theorem', False, 'does not compile against the regenerated model')
